@@ -200,4 +200,158 @@ theorem one_miner_per_account_partial_chacc (cfg : Cfg) (st : State) (d : DbId) 
     application with the same account is indeed rejected there. -/
 example : (runTx toyCfg (run toyCfg funded [.tx tApply11, .endBlock 101]) tApply22).1 = "fail:acctexists" := by decide
 
+/-! ## record stake = applied + added − refunded
+
+`stakeAt cfg st d id` is the stake the registry of type `d` records for `id` (what `GetMiner`,
+the iterator and the totals all read). Each accepted transaction moves the stake of its target by
+exactly its amount and leaves every other miner's stake alone — provided the key families of the
+ids involved do not collide (`Untouched`; SHA-256 gives this except for ids crafted as
+`Sha256^k(other id)`, see `stake_accounting_counterexample`). -/
+
+theorem stake_accounting_apply (cfg : Cfg) (st : State) (src id : Bytes) (typ stake : Nat) (acct pk vrf : Bytes)
+    (hok : (runTx cfg st (.apply src id typ stake acct pk vrf)).1 = "ok") (hu : Untouched cfg id id) :
+    stakeAt cfg (runTx cfg st (.apply src id typ stake acct pk vrf)).2 (dbOfType typ) id = stake := by
+  obtain ⟨st1, _, hex, hst⟩ := runTx_ok cfg st _ hok
+  rw [hst]
+  simp only [execute] at hex ⊢
+  obtain ⟨h0, _, heq⟩ := execApply_ok cfg st1 src id typ stake acct pk vrf hex
+  rw [heq] at hex ⊢
+  rw [(addMiner_ok cfg st1 _ _ _ _ hex).1]
+  unfold addMinerApply
+  rw [stakeAt_updateMiner_new cfg _ _ _ hu]
+  have : stake < 2 ^ 64 := by
+    have := (not_or.mp h0).2
+    unfold maxU64 at this
+    omega
+  exact Nat.mod_eq_of_lt this
+
+theorem stake_accounting_add (cfg : Cfg) (st : State) (src id : Bytes) (delta : Nat) (hr : RecKeyed cfg st) (hd : delta ≠ 0)
+    (hok : (runTx cfg st (.add src id delta)).1 = "ok") (hu : Untouched cfg id id) :
+    ∃ m, getMiner cfg st id = some m ∧
+      stakeAt cfg (runTx cfg st (.add src id delta)).2 (dbOfType m.typ) id
+        = (stakeAt cfg st (dbOfType m.typ) id + delta) % 2 ^ 64 := by
+  obtain ⟨st1, hfee, hex, hst⟩ := runTx_ok cfg st _ hok
+  have hl := (processFee_live st st1 _ hfee).1
+  have hr1 : RecKeyed cfg st1 := (recKeyed_congr cfg st st1 hl).mpr hr
+  rw [hst]
+  simp only [execute] at hex ⊢
+  obtain ⟨_, heq⟩ := execAdd_ok cfg st1 src id delta hex
+  rw [heq] at hex ⊢
+  obtain ⟨m, hm, hap, _⟩ := addStake_ok cfg st1 _ id delta hd hex
+  obtain ⟨d, _, _, hid, _, _, hstake, hdb⟩ := getMiner_some cfg st1 id m hr1 hm
+  refine ⟨m, by rw [← getMiner_congr cfg st st1 hl]; exact hm, ?_⟩
+  rw [hap]
+  subst hid
+  rw [stakeAt_addStakeApply_self cfg _ _ _ _ hu, hstake, hdb, ← stakeAt_of_live cfg st st1 hl]
+  rfl
+
+theorem stake_accounting_refund (cfg : Cfg) (st : State) (src id : Bytes) (amount : Nat) (hr : RecKeyed cfg st)
+    (hok : (runTx cfg st (.refund src id amount)).1 = "ok") (hu : Untouched cfg id id) :
+    ∃ m, getMiner cfg st id = some m ∧ m.account = src ∧ m.stake = stakeAt cfg st (dbOfType m.typ) id ∧
+      refundMoney m amount ≤ m.stake ∧
+      stakeAt cfg (runTx cfg st (.refund src id amount)).2 (dbOfType m.typ) id
+        = stakeAt cfg st (dbOfType m.typ) id - refundMoney m amount := by
+  obtain ⟨st1, hfee, hex, hst⟩ := runTx_ok cfg st _ hok
+  have hl := (processFee_live st st1 _ hfee).1
+  have hr1 : RecKeyed cfg st1 := (recKeyed_congr cfg st st1 hl).mpr hr
+  rw [hst]
+  simp only [execute] at hex ⊢
+  obtain ⟨m, hm, hsrc, hle, hap⟩ := execRefund_ok cfg st1 src id amount hex
+  obtain ⟨d, _, _, hid, _, _, hstake, hdb⟩ := getMiner_some cfg st1 id m hr1 hm
+  have hs : m.stake = stakeAt cfg st (dbOfType m.typ) id := by
+    rw [hstake, hdb, ← stakeAt_of_live cfg st st1 hl]; rfl
+  refine ⟨m, by rw [← getMiner_congr cfg st st1 hl]; exact hm, hsrc.symm, hs, hle, ?_⟩
+  rw [hap, ← hs]
+  subst hid
+  have hlt : m.stake - refundMoney m amount < 2 ^ 64 := by
+    have := stakeAt_lt cfg st (dbOfType m.typ) m.id
+    omega
+  rw [stakeAt_refundApply, stakeAt_refundCore_self cfg _ _ _ _ hu]
+  exact Nat.mod_eq_of_lt hlt
+
+/-- The id a transaction works on. -/
+def target : Tx → Bytes
+  | .apply _ id .. => id
+  | .add _ id _ => id
+  | .refund _ id _ => id
+  | .chacc _ id _ => id
+  | .bad .. => []
+
+/-- Frame: whatever the transaction and its outcome, the stake of every *other* miner (in any
+    registry) is unchanged, as long as its stake slot is not one of the target's keys. -/
+theorem stake_accounting_frame (cfg : Cfg) (st : State) (tx : Tx) (hr : RecKeyed cfg st) (d : DbId) (j : Bytes)
+    (hu : Untouched cfg (target tx) j) (hne : cfg.H j ≠ cfg.H (target tx)) :
+    stakeAt cfg (runTx cfg st tx).2 d j = stakeAt cfg st d j := by
+  by_cases hok : (runTx cfg st tx).1 = "ok"
+  · obtain ⟨st1, hfee, hex, hst⟩ := runTx_ok cfg st _ hok
+    have hl := (processFee_live st st1 _ hfee).1
+    have hr1 : RecKeyed cfg st1 := (recKeyed_congr cfg st st1 hl).mpr hr
+    rw [hst, ← stakeAt_of_live cfg st st1 hl]
+    cases tx with
+    | apply src id typ stake acct pk vrf =>
+      simp only [execute, target] at hex hu hne ⊢
+      obtain ⟨_, _, heq⟩ := execApply_ok cfg st1 src id typ stake acct pk vrf hex
+      rw [heq] at hex ⊢
+      rw [(addMiner_ok cfg st1 _ _ _ _ hex).1]
+      unfold addMinerApply
+      rw [stakeAt_updateMiner_frame cfg _ _ _ d j hu (Or.inr hne)]
+      exact stakeAt_of_live cfg st1 _ rfl d j
+    | add src id delta =>
+      simp only [execute, target] at hex hu hne ⊢
+      obtain ⟨_, heq⟩ := execAdd_ok cfg st1 src id delta hex
+      rw [heq] at hex ⊢
+      by_cases hd : delta = 0
+      · subst hd; simp [addStake]
+      · obtain ⟨m, hm, hap, _⟩ := addStake_ok cfg st1 _ id delta hd hex
+        obtain ⟨_, _, _, hid, _⟩ := getMiner_some cfg st1 id m hr1 hm
+        rw [hap]
+        subst hid
+        exact stakeAt_addStakeApply_frame cfg _ _ _ _ d j hu hne
+    | refund src id amount =>
+      simp only [execute, target] at hex hu hne ⊢
+      obtain ⟨m, hm, _, _, hap⟩ := execRefund_ok cfg st1 src id amount hex
+      obtain ⟨_, _, _, hid, _⟩ := getMiner_some cfg st1 id m hr1 hm
+      rw [hap]
+      subst hid
+      rw [stakeAt_refundApply]
+      exact stakeAt_refundCore_frame cfg _ _ _ _ d j hu hne
+    | chacc src id na =>
+      simp only [execute, target] at hex hu hne ⊢
+      obtain ⟨m, hm, _, _, _, hap⟩ := execChacc_ok cfg st1 src id na hex
+      obtain ⟨_, _, _, hid, _⟩ := getMiner_some cfg st1 id m hr1 hm
+      rw [hap]
+      subst hid
+      exact stakeAt_updateMiner_frame cfg _ _ _ d j hu (Or.inr hne)
+    | bad k src => cases k <;> simp [execute] at hex
+  · exact stakeAt_of_live cfg st _ (runTx_not_ok_live cfg st tx hok) d j
+
+def tApplyVictim : Tx := .apply addr1 [0x11] 0 400 [] [1] [1]
+/-- id = H(victim id): with `toyCfg` the "hash" prepends 0xff. -/
+def tApplyCrafted : Tx := .apply addr2 [0xff, 0x11] 0 400 [] [1] [1]
+
+/-- Non-vacuity of `Untouched`/frame hypotheses and of the step theorems. -/
+example : Untouched toyCfg [0x11] [0x11] ∧ Untouched toyCfg [0x11] [0x22] ∧ toyCfg.H [0x22] ≠ toyCfg.H [0x11] := by
+  simp [Untouched, toyCfg]
+example : stakeAt toyCfg (run toyCfg funded [.tx tApplyVictim, .tx (.add addr2 [0x11] 7)]) .val [0x11] = 407 := by decide
+
+/-- The frame clause without the key-separation hypothesis. -/
+def FullStatementStakeFrame : Prop :=
+  ∀ cfg st tx d j, CodecId cfg → RawOK cfg → Reachable cfg st → j ≠ target tx →
+    stakeAt cfg (runTx cfg st tx).2 d j = stakeAt cfg st d j
+
+/-- False of the code: ids are free-form and the four key families share one key space, so applying a
+    miner whose id is `H(victim id)` writes the new record into the victim's stake slot. (Replayed on
+    the implementation with `H = Sha256`: the victim's stake reads 8872761351423686984.) -/
+theorem stake_accounting_counterexample : ¬ FullStatementStakeFrame := by
+  intro h
+  have hr : Reachable toyCfg (run toyCfg funded [.tx tApplyVictim, .endBlock 101]) :=
+    ⟨100, _, [.tx tApplyVictim, .endBlock 101], by
+      intro o ho
+      simp only [List.mem_cons, List.not_mem_nil, or_false] at ho
+      rcases ho with rfl | rfl
+      · exact ⟨by decide, by decide⟩
+      · trivial, rfl⟩
+  have := h toyCfg _ tApplyCrafted .val [0x11] toy_codecId toy_rawOK hr (by decide)
+  exact absurd this (by decide)
+
 end Rangers.Props.C20
